@@ -91,7 +91,7 @@ def split_top(s, sep=","):
 def parse_call(t):
     """`[dest = ]callee(args) -> [return: bbN, unwind ...];` with balanced
     parentheses inside the callee path (e.g. `<Result<(), E> as Try>::branch`)."""
-    m = re.fullmatch(r"(.*\)) -> (?:\[return: (bb\d+), unwind[^\]]*\]|unwind [^;]*|\[unwind[^\]]*\]);", t)
+    m = re.fullmatch(r"(.*\)) -> (?:\[return: (bb\d+), unwind[^\]]*\]|unwind [^;]*|\[unwind[^\]]*\]|bb\d+);", t)      # last form: diverging call, unwinding to a cleanup block
     if not m:
         return None
     head, nxt = m.group(1), m.group(2)
